@@ -313,12 +313,43 @@ pub fn history_main(prop: &PropDef, args: &[String]) {
     let scalar_worker = matches!(std::env::var("WIREFILTER_USE_AVX2").as_deref(), Ok("0") | Ok("no") | Ok("false"));
     let reverse_order = std::env::var_os("WFSIM_REVERSE").is_some();
     let mut last = None;
+    let mut last_violation: Option<Violation> = None;
     for i in runs {
         let ctx = RunCtx { tier, run: i, seed, scalar_worker, reverse_order, want_sample: false };
         let rec = execute(prop, &ctx, Mode::Search { seed: rng::mix(seed, prop.id, i), forced: forced_for(prop, i) }, false);
         last = rec.result_digest;
+        last_violation = rec.violation;
     }
     println!("H {}", last.map(|d| format!("{d:016x}")).unwrap_or_else(|| "none".into()));
+    match last_violation {
+        Some(v) => println!("HV {} :: {}", v.signature(), v.detail.replace('\n', " ")),
+        None => println!("HV none"),
+    }
+}
+
+/// Signature of the violation (if any) the LAST run of `runs` reports when all of them are executed in one process.
+fn history_violation(prop: &PropDef, tier: Tier, seed: u64, scalar: bool, reverse: bool, runs: &[u64]) -> Option<(String, String)> {
+    let list = runs.iter().map(|r| r.to_string()).collect::<Vec<_>>().join(",");
+    let mut cmd = Command::new(exe());
+    cmd.arg("history").arg(prop.id).arg(tier.name()).arg(seed.to_string()).arg(list);
+    if scalar {
+        cmd.env("WIREFILTER_USE_AVX2", "0");
+    } else {
+        cmd.env_remove("WIREFILTER_USE_AVX2");
+    }
+    if reverse {
+        cmd.env("WFSIM_REVERSE", "1");
+    } else {
+        cmd.env_remove("WFSIM_REVERSE");
+    }
+    let out = cmd.stderr(Stdio::null()).output().ok()?;
+    let text = String::from_utf8_lossy(&out.stdout).into_owned();
+    let line = text.lines().find_map(|l| l.strip_prefix("HV "))?;
+    if line == "none" {
+        return None;
+    }
+    let (sig, detail) = line.split_once(" :: ").unwrap_or((line, ""));
+    Some((sig.to_string(), detail.to_string()))
 }
 
 fn history_digest(prop: &PropDef, tier: Tier, seed: u64, scalar: bool, reverse: bool, runs: &[u64]) -> Option<String> {
@@ -929,8 +960,38 @@ pub fn driver_main(prop: &PropDef, tier: Tier) -> i32 {
         // confirm in a fresh process
         let first = eval_tape(prop, tier, f.scalar, f.run, seed, f.tape.as_deref(), false);
         if first.signature.as_deref() != Some(sig.as_str()) {
+            // Not reproducible alone: does it depend on what the worker process (its main thread) executed before?
+            // Re-execute the worker's sequence of runs up to this one in ONE fresh process.
+            let stride = if prop.env_groups && nworkers >= 2 { nworkers / 2 } else { nworkers }.max(1);
+            let mut history: Vec<u64> = (0..).map(|j| f.run % stride + j * stride).take_while(|x| *x <= f.run).collect();
+            let with_history = history_violation(prop, tier, seed, f.scalar, f.scalar && prop.env_groups, &history);
+            if with_history.as_ref().map(|x| x.0.as_str()) == Some(sig.as_str()) {
+                // shorten the history: last 1, 2, 4, ... predecessors
+                let mut keep = 1usize;
+                while keep < history.len() {
+                    let cand: Vec<u64> = history[history.len() - 1 - keep..].to_vec();
+                    if history_violation(prop, tier, seed, f.scalar, f.scalar && prop.env_groups, &cand).as_ref().map(|x| x.0.as_str()) == Some(sig.as_str()) {
+                        history = cand;
+                        break;
+                    }
+                    keep *= 2;
+                }
+                let list = history.iter().map(|r| r.to_string()).collect::<Vec<_>>().join(",");
+                let env = if f.scalar { "WIREFILTER_USE_AVX2=0 " } else { "" };
+                let cmd = format!("{env}{exe} history {id} {t} {seed} {list} | grep -q '^HV {sig_esc}'; test $? -ne 0", exe = exe().display(), id = prop.id, t = tier.name(), sig_esc = sig.replace('\'', "."));
+                let path = replays_dir.join(format!("{}-{}-{}-history.json", prop.id, seed, f.run));
+                let doc = json!({"format": 1, "property": prop.id, "seed": seed, "run": f.run, "tier": tier.name(), "engine": prop.engine, "cmd": cmd,
+                    "signature": {"invariant": f.v.invariant, "class": f.v.class, "detail": with_history.as_ref().map(|x| x.1.clone()).unwrap_or_default()},
+                    "depends_on_process_history": true,
+                    "trace": [format!("run {} alone in a fresh process: {:?}; after runs [{list}] in the same process (same thread): {sig}", f.run, first.signature),
+                              "the violation needs state left behind by earlier runs in the same process / on the same thread (history shortened from the worker's full sequence)".to_string()]});
+                std::fs::write(&path, serde_json::to_string_pretty(&doc).unwrap()).expect("write replay file");
+                violation_lines.push(format!("VIOLATION property={} replay={}", prop.id, path.display()));
+                println!("  {} :: (depends on process history) {}", sig, with_history.map(|x| x.1).unwrap_or_default());
+                continue;
+            }
             harness_errors.push(format!(
-                "non-deterministic replay: run {} reported {} but a fresh-process replay gave {:?}",
+                "non-deterministic replay: run {} reported {} but a fresh-process replay gave {:?} (and replaying the worker's history did not reproduce it either)",
                 f.run, sig, first.signature
             ));
             continue;
